@@ -494,6 +494,8 @@ class Scenario(object):
         self.join_unknown = join_unknown  # undecided `if`: run both arms and join the normal exits (call/store sets are united)
 
 
+HASHLIB_CTORS = {'md5', 'sha1', 'sha224', 'sha256', 'sha384', 'sha512', 'sha3_256', 'sha3_512', 'ripemd160'}
+
 BUILTIN_TYPES = {'str', 'bytes', 'bytearray', 'int', 'bool', 'list', 'tuple', 'set', 'dict', 'NoneType', 'datetime',
                  'timedelta'}
 
@@ -1003,10 +1005,13 @@ class Frame(object):
         if isinstance(test, ast.Compare) and len(test.ops) == 1:
             return ('cmp', OPS[type(test.ops[0])], self.text(test.left, st), self.text(test.comparators[0], st))
         if isinstance(test, ast.Call):
+            sk = getattr(self.ev(test, st, quiet=True), 'skel', None)
+            if sk is not None:           # an inlined helper returning a comparison / a boolean combination
+                return sk
             ft = self.text(test.func, st)
             args = [self.text(a, st) for a in test.args]
             return ('call', ft, args)
-        return ('expr', self.text(test, st))
+        return _skel_of(self.ev(test, st, quiet=True))
 
     def truth(self, v):
         if isinstance(v, Const):
@@ -1375,7 +1380,9 @@ class Frame(object):
         if d is not None:
             return Const(d)
         op = ' or ' if isinstance(node.op, ast.Or) else ' and '
-        return Sym('(%s)' % op.join(render(v) for v in vals))
+        r = Sym('(%s)' % op.join(render(v) for v in vals))
+        r.skel = (op.strip(), [_skel_of(v) for v in vals])
+        return r
 
     def ev_UnaryOp(self, node, st):
         v = self.ev(node.operand, st)
@@ -1383,7 +1390,9 @@ class Frame(object):
             d = self.decide(node, st)
             if d is not None:
                 return Const(d)
-            return Sym('not %s' % render(v))
+            r = Sym('not %s' % render(v))
+            r.skel = ('not', _skel_of(v))
+            return r
         if isinstance(v, Const) and isinstance(v.value, (int, float)) and not isinstance(v.value, bool):
             if isinstance(node.op, ast.USub):
                 return Const(-v.value)
@@ -1400,7 +1409,10 @@ class Frame(object):
         for op, c in zip(node.ops, node.comparators):
             parts.append(OPS[type(op)])
             parts.append(self.text(c, st))
-        return Sym('(%s)' % ' '.join(parts))
+        r = Sym('(%s)' % ' '.join(parts))
+        if len(node.ops) == 1:
+            r.skel = ('cmp', parts[1], parts[0], parts[2])
+        return r
 
     def ev_BinOp(self, node, st):
         l = self.ev(node.left, st)
@@ -1499,6 +1511,16 @@ class Frame(object):
 
     # ------------------------------------------------------------------ calls
     def ev_Call(self, node, st):
+        r = self._ev_Call(node, st)
+        if type(r) is Sym and not node.keywords and getattr(r, 'skel', None) is None:
+            for c in reversed(st.calls):
+                if c[4] is node:
+                    if r.text == '%s(%s)' % (c[0], ', '.join(c[1])):
+                        r.skel = ('call', c[0], list(c[1]))
+                    break
+        return r
+
+    def _ev_Call(self, node, st):
         func = node.func
         args = [self.ev(a, st) for a in node.args]
         kwargs = {}
@@ -1577,6 +1599,12 @@ class Frame(object):
                 h = Hasher(alg)
                 if len(args) > 1:
                     h.items.extend(as_items(args[1]))
+                return h
+            if fname is not None and fname.startswith('hashlib.') and fname[8:] in HASHLIB_CTORS and len(args) <= 1 and not kwargs:
+                record(fname)
+                h = Hasher(fname[8:])
+                if args:
+                    h.items.extend(as_items(args[0]))
                 return h
             if fname in ('hashes.Hash',) and args:
                 record(fname)
@@ -1657,6 +1685,8 @@ class Frame(object):
                         return Const(sum(len(i[1]) for i in its))
                 if isinstance(a, ListV):
                     return Const(len(a.elems))
+                if isinstance(a, Const) and isinstance(a.value, (bytes, bytearray, str, tuple, list)):
+                    return Const(len(a.value))
                 return Sym('len(%s)' % render(a))
             if n in ('int', 'bool', 'str') and len(args) == 1 and isinstance(args[0], Const) and \
                     not isinstance(args[0].value, Enum):
@@ -1836,6 +1866,16 @@ class Frame(object):
         if all(isinstance(v, (Bytes, Const)) for v in vals) and any(isinstance(v, Bytes) for v in vals):
             return Bytes([('ALT', [as_items(v) for v in vals])])
         return Sym('ALT(%s)' % ' | '.join(texts))
+
+
+def _skel_of(v):
+    """Boolean skeleton of a value used as a condition: comparisons / calls / not / and / or keep theirs through locals."""
+    sk = getattr(v, 'skel', None)
+    if sk is not None:
+        return sk
+    if isinstance(v, Const) and isinstance(v.value, bool):
+        return ('const', v.value)
+    return ('expr', render(v))
 
 
 def _preorder(node):
